@@ -367,6 +367,91 @@ impl Family for Emission {
     }
 }
 
+
+/// Diagnostics of the parsing phases (they need ill-formed TEXT, which the model cannot print): without a span, at
+/// the end of the file, one row past the last line, with user bytes in the message.
+pub struct RawSources;
+const RAW_TEXTS: [&[&str]; 10] = [
+    &["struct S {}\n"],
+    &["module M\nstruct S {"],
+    &["#if X\nmodule M"],
+    &["module M\nstruct \u{e9} {}\n"],
+    &["module M\n/* unterminated"],
+    &["module M\nstruct S { a: int32 \n"],
+    &["module M\nstruct S { a: \"str\\\"ing\" }\n"],
+    &["module M\n#if (A &&\nstruct S {}\n#endif\n"],
+    &["module M\n/// @bogus \"q\"\nstruct S {}\nstruct T { x y }", "struct Q {}\n/// {@link\ncustom C\n"],
+    &["", "module M\n[deprecated] struct D {}\nstruct U { d: D }\n#endif"],
+];
+impl Family for RawSources {
+    fn name(&self) -> String {
+        format!("emission/raw sources: {} ill-formed texts (no module: a diagnostic without a span; input ends inside a definition, a directive, a block comment; an error one row past the last line; user bytes in a lexer message; two such files) x 12 configurations", RAW_TEXTS.len())
+    }
+    fn len(&self) -> u64 {
+        RAW_TEXTS.len() as u64 * 12
+    }
+    fn describe(&self, idx: u64) -> Value {
+        json!({"files": RAW_TEXTS[(idx % RAW_TEXTS.len() as u64) as usize], "argv_options": config(idx / RAW_TEXTS.len() as u64).argv()[1..].to_vec()})
+    }
+    fn run(&self, idx: u64) -> CaseOut {
+        let texts = RAW_TEXTS[(idx % RAW_TEXTS.len() as u64) as usize];
+        let cfg = config(idx / RAW_TEXTS.len() as u64);
+        let mut out = CaseOut::new(hash_str(&format!("c14raw{idx}")));
+        out.validated = 1;
+        out.nontrivial = true;
+        let input = || format!("argv {:?}\n--- input ---\n{}", cfg.argv(), texts.join("\n--- next file ---\n"));
+        let opts = match SliceOptions::try_parse_from(cfg.argv()) {
+            Ok(o) => o,
+            Err(e) => {
+                out.violate("c14/emission/options-rejected", format!("{:?}: {e}", cfg.argv()));
+                return out;
+            }
+        };
+        let r = guarded(|| {
+            let state = slicec::compile_from_strings(texts, Some(&opts));
+            let slicec::compilation_state::CompilationState { ast, diagnostics, files } = state;
+            let raw = diagnostics.into_updated(&ast, &files, &opts);
+            (ast, files, raw)
+        });
+        let (_ast, files, raw) = match r {
+            Ok(x) => x,
+            Err((loc, msg)) => {
+                out.violate(format!("c14/emission/panic@{loc}"), format!("compiling panicked at {loc}: {msg}\n{}", input()));
+                return out;
+            }
+        };
+        let diags: Vec<DiagObs> = raw.iter().map(diag_obs).collect();
+        let mut buf: Vec<u8> = vec![];
+        console::set_colors_enabled(cfg.color);
+        console::set_colors_enabled_stderr(cfg.color);
+        let r = guarded(|| {
+            let mut em = DiagnosticEmitter::new(&mut buf, &opts, &files);
+            em.emit_diagnostics(raw).map_err(|e| e.to_string())
+        });
+        console::set_colors_enabled(false);
+        console::set_colors_enabled_stderr(false);
+        match r {
+            Err((loc, msg)) => {
+                out.violate(format!("c14/emission/panic@{loc}"), format!("emitting panicked at {loc}: {msg}\n{}", input()));
+                return out;
+            }
+            Ok(Err(e)) => {
+                out.violate("c14/emission/emitter-error", format!("emit_diagnostics failed: {e}\n{}", input()));
+                return out;
+            }
+            Ok(Ok(())) => {}
+        }
+        let stream = String::from_utf8_lossy(&buf).to_string();
+        if diags.iter().all(|d| d.level != "error") {
+            out.violate("c14/emission/raw-source-without-error", format!("an ill-formed text produced no error\n{}", input()));
+        }
+        out.steps = diags.len() as u64 + 1;
+        out.class = format!("{}:{}diags:{}spanless", if cfg.json { "json" } else { "human" }, diags.len().min(6), diags.iter().filter(|d| d.span.is_none()).count().min(3));
+        check_stream(&stream, &diags, &cfg, "emission", &mut out, &input);
+        out
+    }
+}
+
 /// Process-level slice: totals on stdout, exit status, span-less diagnostics, hostile file names.
 pub struct Binary;
 const NAMES: [&str; 6] = ["plain.slice", "with space.slice", "quo\"te.slice", "back\\slash.slice", "ünï 😀.slice", "tab\there.slice"];
@@ -519,9 +604,98 @@ impl Family for Binary {
     }
 }
 
+
+/// The library's exit point (`CompilationState::emit_diagnostics`, what a downstream compiler calls) against the
+/// binary's own copy of it: same inputs, same options => the same bytes on both streams and the same verdict.
+pub struct ExitPoints;
+impl Family for ExitPoints {
+    fn name(&self) -> String {
+        "exit-points/8 program shapes (clean, warnings, errors, notes, missing file, duplicate file, directory, two files) and the 256-error program x 12 configurations: the binary with --dry-run and a minimal compiler that ends with CompilationState::emit_diagnostics write the same stderr and stdout and agree on failure".into()
+    }
+    fn len(&self) -> u64 {
+        9 * 12
+    }
+    fn describe(&self, idx: u64) -> Value {
+        let shape = [0, 1, 2, 3, 4, 5, 6, 7, 13][(idx % 9) as usize];
+        json!({"shape": shape, "argv_options": config(idx / 9).argv()[1..].to_vec()})
+    }
+    fn run(&self, idx: u64) -> CaseOut {
+        let shape = [0u64, 1, 2, 3, 4, 5, 6, 7, 13][(idx % 9) as usize];
+        let cfg = config(idx / 9);
+        let mut out = CaseOut::new(hash_str(&format!("c14exit{idx}")));
+        out.validated = 1;
+        out.nontrivial = true;
+        // the scenario of the `binary` family with the same shape number (file name 0)
+        let build = |subject: Option<&str>| {
+            let mut sc = Scenario::default();
+            let (text, extra) = binary_shape(shape, "a.slice", &mut sc);
+            sc.tree.push(("a.slice".to_string(), crate::proc::Node::File(text.into_bytes())));
+            let mut argv: Vec<String> = vec!["a.slice".to_string()];
+            argv.extend(extra);
+            argv.extend(cfg.argv()[1..].iter().cloned());
+            argv.push("--dry-run".into());
+            sc.env.push(("CLICOLOR_FORCE".into(), "1".into()));
+            sc.env.push(("NO_COLOR".into(), "".into()));
+            if let Some(s) = subject {
+                sc.env.push(("MC_SUBJECT_BINARY".into(), s.to_string()));
+            }
+            sc.argv = argv;
+            sc
+        };
+        let a = run(&build(None), Duration::from_secs(20));
+        let b = run(&build(Some("emitcs")), Duration::from_secs(20));
+        let input = || format!("argv {:?}\n--- slicec: exit {:?} stderr ---\n{}\n--- stdout ---\n{}\n--- library exit point: exit {:?} stderr ---\n{}\n--- stdout ---\n{}", a.argv, a.exit_code, show_bytes(&a.stderr), show_bytes(&a.stdout), b.exit_code, show_bytes(&b.stderr), show_bytes(&b.stdout));
+        for o in [&a, &b] {
+            if o.timed_out || o.signal.is_some() || o.panic_location().is_some() {
+                out.violate("c14/exit-points/crash-or-hang", input());
+                return out;
+            }
+        }
+        // (paths differ between the two scratch directories only where a message shows an absolute path: none does)
+        if a.stderr != b.stderr {
+            out.violate("c14/exit-points/diagnostic-stream-differs", input());
+        }
+        if a.stdout != b.stdout {
+            out.violate("c14/exit-points/summary-differs", input());
+        }
+        if (a.exit_code == Some(0)) != (b.exit_code == Some(0)) {
+            out.violate("c14/exit-points/verdict-differs", input());
+        }
+        out.class = format!("exit{:?}", a.exit_code);
+        out
+    }
+}
+
+/// Text of the main file and the further arguments of shape `shape` of the `binary` family (shapes without generators).
+fn binary_shape(shape: u64, name: &str, sc: &mut Scenario) -> (String, Vec<String>) {
+    let text = match shape {
+        0 => "module M\nstruct S {}\n".to_string(),
+        1 => "module M\n[deprecated(\"q\\\"uote\")] struct D {}\nstruct U { d: D }\n/// {@link Nope}\nstruct L {}\n".to_string(),
+        2 => "module M\ncompact struct E {}\nstruct F { a: Nope }\n".to_string(),
+        3 => "module M\nstruct A { b: B }\nstruct B { a: A }\n".to_string(),
+        13 => format!("module M\nstruct Many {{\n{}}}\n", (0..256).map(|i| format!("  a{i}: Nope{i}\n")).collect::<String>()),
+        _ => "module M\n\t[deprecated] struct D {}\n\tstruct U { d: D? }\n".to_string(),
+    };
+    let mut extra = vec![];
+    match shape {
+        4 => extra.push("missing file.slice".to_string()),
+        5 => extra.push(name.to_string()),
+        6 => {
+            sc.tree.push(("a dir".into(), crate::proc::Node::Dir));
+            extra.push("a dir".into());
+        }
+        7 => {
+            sc.tree.push(("other é.slice".into(), crate::proc::Node::File(b"module O\n/// @bogus\nstruct X { y: M::Nope }\n".to_vec())));
+            extra.push("other é.slice".into());
+        }
+        _ => {}
+    }
+    (text, extra)
+}
+
 pub fn families(tier: &str) -> Vec<Box<dyn Family>> {
     let quick = tier == "quick";
-    let mut v: Vec<Box<dyn Family>> = vec![Box::new(Emission { arity: 1, all_configs: true, specials_only: false }), Box::new(Binary), Box::new(Emission { arity: 2, all_configs: !quick, specials_only: false })];
+    let mut v: Vec<Box<dyn Family>> = vec![Box::new(ExitPoints), Box::new(RawSources), Box::new(Emission { arity: 1, all_configs: true, specials_only: false }), Box::new(Binary), Box::new(Emission { arity: 2, all_configs: !quick, specials_only: false })];
     if !quick {
         v.push(Box::new(Emission { arity: 3, all_configs: false, specials_only: true }));
     }
